@@ -43,6 +43,9 @@ class OpCode(Enum):
     VECTOR_DIV = 0x1_1005
     VECTOR_MOD = 0x1_1006
 
+    VECTOR_LG_OR = 0x1_1300
+    VECTOR_LG_AND = 0x1_1301
+
     VECTOR_MUL_SCALAR = 0x1_2004
     VECTOR_DIV_SCALAR = 0x1_2005
 
@@ -670,6 +673,9 @@ class BinaryInstruction(Instruction):
                 op.Operation.MUL: OpCode.VECTOR_MUL,
                 op.Operation.SUB: OpCode.VECTOR_SUB,
                 op.Operation.DIV: OpCode.VECTOR_DIV,
+                op.Operation.MOD: OpCode.VECTOR_MOD,
+                op.Operation.LG_AND: OpCode.VECTOR_LG_AND,
+                op.Operation.LG_OR: OpCode.VECTOR_LG_OR,
                 op.Operation.CMP_GT: OpCode.VECTOR_CMP_GT,
                 op.Operation.CMP_GE: OpCode.VECTOR_CMP_GE,
                 op.Operation.CMP_LT: OpCode.VECTOR_CMP_LT,
